@@ -263,7 +263,7 @@ func lengths(thorough bool) []int {
 
 func run(c *vf.Ctx) {
 	c.Rule("every registered cipher x MAC pair (AEADs once) x {payload lengths 1..300 (thorough 1..4200) + 27 neighbours of 512,1024,2048,4096,32768,35000} arranged as 3-packet sequences " +
-		"(each length once in each position, non-monotonic) x start seqno {0,1,2^32-2}; x IV carry classes x 5-packet sequences; 600-packet runs across the seqno wrap; " +
+		"(each length once in each position, non-monotonic) x start seqno {0,1,2^32-2}; x IV carry classes x 5-packet sequences; 600-packet runs across the seqno wrap; one 1257-packet connection per mode with payload 1..1100 ascending then descending (buffer growth/reuse); " +
 		"payload lengths maxPacket-24..maxPacket (thorough -70); newPacketCipher/generateKeyMaterial x {SHA1,256,384,512} x both directions. " +
 		"non-trivial = distinct (mode, payload length, position in sequence) whose packet was read back AND independently decoded; " +
 		"oracle = verif/ref/sshpkt (own CTR/CBC/GCM/ChaCha20/Poly1305, KAT-validated) + reader round trip + connectionState sequence numbers")
@@ -352,6 +352,22 @@ func run(c *vf.Ctx) {
 	})
 
 	lap("C")
+	// ---- F: one long-lived connection per mode, payload length 1..1100 ascending then
+	// descending: every buffer growth step just above the previous capacity, and reuse of
+	// larger buffers for smaller packets.
+	c.ParallelFor(len(ms), func(j int) {
+		m := ms[j]
+		var payloads [][]byte
+		for l := 1; l <= 1100; l++ {
+			payloads = append(payloads, fixType(c.Bytes("payloadF", l, l)))
+		}
+		for l := 1099; l >= 1; l -= 7 {
+			payloads = append(payloads, fixType(c.Bytes("payloadF", l, l)))
+		}
+		ivs := ivClasses(c, "iv/"+m.String(), m.ci.IVSize)
+		runSequence(c, m, m.keys(c, ivs[0], 4), 5, payloads, "F", false)
+	})
+	lap("F")
 	// ---- D: largest packets ------------------------------------------------------------
 	type jobD struct {
 		m mode
